@@ -24,6 +24,9 @@ KsClauses(r) ==
   ELSE <<
     <<"SampleFollowsCdf", AllDkw(r.overall)>>,
     <<"ConditionalOnSameRowValue", AllDkw(r.given)>>,
+    (* fitted models: rows whose conditioning value lies below the smallest / above the largest *)
+    (* interval reference value the fit has seen, judged as regions of their own                *)
+    <<"ConditionalOutsideFittedRange", AllDkw(r.extreme)>>,
     <<"ComponentsIndependent", AllDkw(r.indep)>>,
     <<"SampleFinite", r.finite>>
   >>
